@@ -371,6 +371,15 @@ def check(pid, tier, seed):
     audit_ok, axioms, audit_log = (True, {}, "")
     if ok_lean and thms:
         audit_ok, axioms, audit_log = axiom_audit(pid, thms_q, modules)
+    # thorough tier: the toolchain's independent re-checker replays every declaration of the
+    # property's modules through the kernel once more (imports trusted as compiled)
+    recheck = None
+    if ok_lean and tier == "thorough" and modules:
+        r = run(["lake", "env", "leanchecker"] + modules, cwd=LEAN)
+        recheck = {"cmd": "lake env leanchecker " + " ".join(modules), "rc": r.returncode,
+                   "output": (r.stdout + r.stderr)[-1500:]}
+        if r.returncode != 0:
+            violations.append(("proof", {"what": "leanchecker rejects a compiled module", "log": recheck["output"]}, False))
     scan = source_scan()
     obligations = len(thms)
     discharged = len([t for t in thms_q if t in axioms and all(a in ALLOWED_AXIOMS for a in axioms[t])]) if ok_lean else 0
@@ -528,6 +537,8 @@ def check(pid, tier, seed):
             "known_findings_seen": kf_lines,
             "explanation": spec.get("explanation", ""),
             "repro": repro_info,
+            "leanchecker": recheck,
+            "focus": focus_info,
             "programs": evaluations,
             "disagreements_checked": evaluations,
         },
